@@ -78,6 +78,11 @@ def is_key_insert(n):
 
 
 def run(ctx):
+    _run_main(ctx)
+    cache_read_modify_write_under_lock(ctx)
+
+
+def _run_main(ctx):
     F = ctx.facts
     ctx.explanation = ("K1/K3/K6/K4 clauses: the password cache is written only by kanidm_update_cached_password, only from the online step under the server's "
                        "Ok(Some(token)) reply for the same credential, only with Password::new_argon2id_hsm, and cleared on every failure; offline success only "
@@ -333,3 +338,42 @@ def run(ctx):
                               f"{name} constructs Kdf::TPM_ARGON2ID outside new_argon2id_hsm / the storage decoder: a 'machine-bound' hash not keyed by hmac_s256",
                               **loc(rec, n))
     ctx.floor("K1-tpm-kdf", "constructions of Kdf::TPM_ARGON2ID", n_tpm, 3)
+
+
+# ---------------------------------------------------------------------------------------------------------------------
+# The sealed offline password lives in the cached user token (extra_keys). Every resolver method that reads the cached
+# token and writes a token back does so as a read-modify-write; the hsm lock is the resolver's single-writer lock, so the
+# read must happen after the lock is taken. Otherwise a refresh that snapshots the token, then queues behind an online
+# authentication, writes the OLD password hash back over the one just verified - offline login then accepts the superseded
+# password and rejects the current one. (added after seeded change C44: lock taken after the re-read in refresh_usertoken)
+
+def cache_read_modify_write_under_lock(ctx):
+    from .lib.hir import walk
+    R = "K6-cache-rmw-under-lock"
+    RESC = "sparkle_resolver_common"
+    names = ctx.facts.find_fns(RESC, r"^sparkle_resolver_common::resolver::Resolver::[a-z_0-9]+$")
+    n_rmw = 0
+    for name in sorted(names):
+        f = ctx.facts.fn(RESC, name)
+        seq = []
+        for c in walk(f["body"]):
+            if c.get("e") != "mcall":
+                continue
+            nm = c.get("name")
+            if nm == "lock" and any(x.get("e") == "field" and x.get("f") == "hsm" for x in walk(c["recv"])):
+                seq.append(("LOCK", c.get("line")))
+            elif nm == "get_cached_usertoken":
+                seq.append(("READ", c.get("line")))
+            elif nm in ("set_cache_usertoken", "delete_cache_usertoken"):
+                seq.append(("WRITE", c.get("line")))
+        kinds = [k for k, _ in seq]
+        if "READ" in kinds and "WRITE" in kinds:
+            n_rmw += 1
+            ctx.analysed_fns.add(name)
+            first_read = kinds.index("READ")
+            ok = "LOCK" in kinds[:first_read]
+            ctx.check(ok, R, name, "lock-before-cached-token-read", "hsm lock taken before the cached token is read",
+                      f"{name.rsplit('::', 1)[1]} reads the cached user token (line {seq[first_read][1]}) before taking the hsm lock and later writes a token back: the "
+                      "read-modify-write is not atomic, so a concurrent online authentication's freshly sealed password hash is overwritten by the stale copy — "
+                      "offline login then accepts the previous password instead of the last one verified online", file=f["file"], line=seq[first_read][1])
+    ctx.floor(R, "resolver methods that read and write the cached user token", n_rmw, 2)
